@@ -31,6 +31,8 @@ class Interp(ExprMixin, CallMixin):
         self.nstates = 0
         self.depth = 0
         self._stub_cache = {}
+        self.truth_tests = set()
+        self._cur_site = ""
         self._pins = []
         self._global_cache = {}
         self.unclassified = set()
@@ -185,6 +187,8 @@ class Interp(ExprMixin, CallMixin):
                 return self.decide(st, ("truthy", ("ref",) + tuple(map(str, v.addr))))
             return [(st, True)]
         if isinstance(v, Sym):
+            if self.cfg.record_truth_tests:
+                self.truth_tests.add((v.tok, tuple(sorted(v.prov)), self._cur_site, self.via()))
             return self.decide(st, ("truthy", v.tok))
         raise AnalysisError(f"truth of {v!r}")
 
@@ -342,6 +346,7 @@ class Interp(ExprMixin, CallMixin):
 
     def exec_stmt(self, stmt, st: State, frame: Frame) -> List[Outcome]:
         self.tick()
+        self._cur_site = self.site(frame, stmt)
         m = getattr(self, "s_" + type(stmt).__name__, None)
         if m is None:
             raise AnalysisError(
